@@ -340,7 +340,12 @@ func numEqualsNumeral(numV reflect.Value, s string) bool {
 	}
 	// numV is an integer and s is written with a fraction or an exponent:
 	// a float64 cannot hold every int64, so decide with enough precision
-	bf, _, err := big.ParseFloat(s, 10, 128, big.ToNearestEven)
+	// every digit written counts: four bits per character is more than the numeral can need
+	prec := uint(128)
+	if n := uint(len(s)) * 4; n > prec {
+		prec = n
+	}
+	bf, _, err := big.ParseFloat(s, 10, prec, big.ToNearestEven)
 	if err != nil || !bf.IsInt() {
 		return false
 	}
